@@ -193,3 +193,10 @@ Proof.
   split; [cbn; repeat split; try discriminate; exact I|].
   repeat split; vm_compute; reflexivity.
 Qed.
+
+(* simplify_boolean_never_grows / simplify_unused_total on a real input: the left operand
+   (g() ? 1 : 0) of an unused && shrinks to g() || false before it is simplified again *)
+Example simplify_unused_total_ex :
+  esize (simplify_boolean (w_unbound Wgood) ex_sb) = 9%nat /\ esize ex_sb = 11%nat /\
+  simplify_unused (w_unbound Wgood) false (EBin BLogAnd ex_sb (EId 1 false false)) <> UFuel.
+Proof. repeat split; vm_compute; try reflexivity; discriminate. Qed.
